@@ -167,7 +167,9 @@ static inline int vk_main(int argc, char **argv, Factory factory, const char *de
     for (auto &l : r.tracelog) printf("%s\n", l.c_str());
     printf("--- final file tree ---\n%s", r.tree.c_str());
     if (r.harness) { printf("HARNESS-ERROR %s\n", r.hmsg.c_str()); return 2; }
+    for (auto &sv : r.softs) printf("FAIL %s %s\n", sv.first.c_str(), sv.second.c_str());
     if (r.violated) { printf("FAIL %s %s\n", r.key.c_str(), r.text.c_str()); return 1; }
+    if (!r.softs.empty()) return 1;
     printf("replay: no violation (%s)\n", r.description.c_str());
     return 0;
   }
